@@ -46,6 +46,11 @@ STRENGTHENED = [
     ("seeded/C12-d", "sync value() re-runs the query when the executor raises a RuntimeError (sub)class", "C12 executors raise one of six exception classes (RuntimeError, NotImplementedError, ValueError, KeyError, OSError families, plain Exception)"),
     ("seeded/C18-d", "renaming pass plus a lambda with keyword-only parameters one of which has no default", "typed generator: called lambdas with keyword-only parameters (C02 / C18); exposed the genuine defect D37"),
     ("seeded/C20-d", "string constants / identifiers that differ only up to Unicode normalisation", "C20 edits: look-alike text (NFKC/NFC/NFD forms, full-width letters, ligatures, composed vs decomposed accents) in string constants, names and attributes"),
+    ("seeded/C01-e", "a helper with a defaulted parameter called by keyword whose parameter name is bound a second time in the query", "C01: keyword-called helpers (also nested in each other) at the root of numeric Select bodies; C02 catches it unchanged"),
+    ("seeded/C02-e", "one lambda node in two call positions, inlined on a later re-visit (shallow copy of the body)", "C02 already produced the shape (sequence-valued / lambda-valued arguments used twice) but the mutant returns a CYCLIC tree that made the check itself crash: the check now reports a result tree that cannot be walked as a violation"),
+    ("seeded/C03-e", "mis-attributed twin lambdas whose names and constants are first mentioned in a different order", "C03 attribute-order twins `(a.real + k) // (a.imag + m)` vs `(a.imag + k) // (a.real + m)`"),
+    ("seeded/C04-e", "memoised expansion of an inlined helper goes stale when the helper's captured name is re-bound", "C04 items hg(e.n) / ha(e.n) / hv(e.n): names captured by an inlined one-line helper (global, class constant, closure variable), combined with the rebinding history and the call-again step"),
+    ("seeded/C05-e", "helpers two deep, argument expression spelled like the inner helper's parameter and like the binder of a lambda inside it", "C05 two-level shape: inner helper with a lambda, outer helper passing an argument expression over names drawn from the same 3-name pool"),
     ("seeded/C08-c", "generic subclass with more type parameters than its base uses", "C08 skeleton: Tag(Box[K], Generic[K,V]), Tag2(Box[V], ...), Swap(Pair[U,T], ...), HalfPair(Pair[T,int]), It2(Iterable[V], ...), TagInts(Tag[int,V]); class names taken from typing. This extension also exposed the genuine defects D29 and D30"),
 ]
 
